@@ -27,7 +27,7 @@ def main(argv):
             if data.get('witness', {}).get('type') == 'load':
                 # witness of the load-fidelity monitor (harness.Session.load): loading it again re-judges it
                 try:
-                    s.load(data['witness']['doc'])
+                    s.load(data['witness']['doc'], via=data['witness'].get('via'))
                 except Exception:
                     pass            # a refused load has been judged inside load()
                 s.evaluations += 1
